@@ -109,6 +109,18 @@ def c16_b(ctx: Ctx):
     if verdict is None:
         add_loops = [lp for lp in loops if any(isinstance(c, ast.Call) and isinstance(c.func, ast.Attribute) and c.func.attr == "add" for c in ast.walk(lp))]
         test_loops = [lp for lp in loops if any(isinstance(c, ast.Raise) for c in ast.walk(lp))]
+        # every proper prefix of a path is a node: the add sits in an inner loop over the token positions
+        if add_loops:
+            inner = [n for n in ast.walk(add_loops[0]) if isinstance(n, (ast.For, ast.While)) and n is not add_loops[0]
+                     and any(isinstance(c, ast.Call) and isinstance(c.func, ast.Attribute) and c.func.attr == "add" for c in ast.walk(n))]
+            rng = [n for n in inner if isinstance(n, ast.For) and canon(n.iter).replace(" ", "") in ("range(1,len(tokens))",)]
+            if rng:
+                out.append(ctx.ok(R, f, rng[0], "every proper prefix of every path is registered as a node"))
+            elif inner:
+                out.append(ctx.inc(R, f, inner[0], "prefix enumeration has an unrecognised shape: " + stmt_key(inner[0], 60)))
+            else:
+                out.append(ctx.viol(R, f, add_loops[0], "only one ancestor per path is registered as a node (no loop over all proper prefixes): a leaf that is a more distant ancestor of another "
+                                    "path (view paths 'P/job' and 'P/job/k/v/job') is not recognised as a node and the conflict is accepted"))
         if add_loops and test_loops and f.node.body.index(add_loops[0]) < f.node.body.index(test_loops[0]):
             out.append(ctx.ok(R, f, test_loops[0], "all nodes are collected in a first pass; paths are tested against the complete node set in a second pass"))
             it1, it2 = canon(add_loops[0].iter), canon(test_loops[0].iter)
@@ -192,6 +204,20 @@ def c16_c(ctx: Ctx):
                                         "below an identified job directory is imported as an additional job"))
     if not found:
         out.append(ctx.inc(R, t, t.node, "tar analyser: sub-directory skipping shape not recognised"))
+    # zip analyser: its directory set holds only directories that directly contain files, so it is not closed under parents;
+    # skipping must therefore test *ancestry*, not parent membership
+    z = ctx.fn(IE + ":_analyze_zipfile_for_import")
+    pm_tests = [n for n in body_nodes(z) if isinstance(n, ast.Compare) and len(n.ops) == 1 and isinstance(n.ops[0], ast.In)
+                and canon(n.left).replace(" ", "") == "os.path.dirname(name)"]
+    anc = [c for c in body_nodes(z) if isinstance(c, ast.Call) and (IE + ":_zip_path_is_within") in common.targets_of(ctx, z, c)]
+    if pm_tests:
+        out.append(ctx.viol(R, z, pm_tests[0], f"the zip analyser skips sub-directories by parent membership ({canon(pm_tests[0])[:50]}); zip archives list no directory entries, so the "
+                            "directory set is not closed under parents and a state point file two levels below an identified job (under a directory without files of its own) is imported "
+                            "as an additional job"))
+    elif anc:
+        out.append(ctx.ok(R, z, anc[0], "the zip analyser skips by ancestry (component-wise prefix test), which does not need intermediate directory entries"))
+    else:
+        out.append(ctx.inc(R, z, z.node, "zip analyser: sub-directory skipping shape not recognised"))
     return out
 
 
@@ -317,6 +343,9 @@ def c16_f(ctx: Ctx):
         out.append(ctx.ok(R, c, inits[0], "the imported directory is initialised as a job (state point written / validated)"))
     else:
         out.append(ctx.viol(R, c, c.node, "imported directories are not initialised: jobs imported through a schema function have no state point file"))
+    from .lints import no_nesting_move
+    out += no_nesting_move(ctx, R, [IE + ":_CopyFromTarFileExecutor.__call__", IE + ":_CopyFromDirectoryExecutor.__call__", IE + ":_copy_to_job_workspace",
+                                    "signac.project:Project.clone", "signac.job:Job.move"])
     z = ctx.fn(IE + ":_CopyFromZipFileExecutor.__call__")
     for e in ctx.effects.direct(z):
         if e.kind == "open-write":
